@@ -92,7 +92,7 @@ def lib_accepts(data, short=None):
 class C02(Check):
     ID = 'C02'
     LEVEL = 'exploration'
-    RUNS = {'quick': 8000, 'thorough': 300000}
+    RUNS = {'quick': 40000, 'thorough': 1500000}
     BLOCK = 50
     RULE = ('each run: one trait-labelled image (reject / accept / none; '
             'qcow2 versions, backing offsets, each incompatible-feature bit '
